@@ -2,6 +2,7 @@
 # runs every claimed check's quick (or given) tier on /repo, sequentially; prints one line per property
 cd "$(dirname "$0")/.."
 tier=${1:-quick}
+mkdir -p .work
 for id in $(python3 -c "import json; print(' '.join(c['property_id'] for c in json.load(open('MANIFEST.json'))['checks']))"); do
   t0=$(date +%s)
   timeout 7200 ./check $id $tier > .work/runall-$id.out 2>&1
